@@ -21,6 +21,7 @@ var AssumedLib = []string{
 	"fmt.Errorf / errors.New: return a non-nil error, no other effect",
 	"net.IP.To4: returns nil or a 4-byte slice (the receiver itself when it has length 4); To16: nil or a 16-byte slice (the receiver itself when it has length 16, non-nil when length 4)",
 	"sync.(RW)Mutex: Lock/RLock acquire (monitor model: protected state is havocked and the lock invariant assumed), Unlock/RUnlock release (lock invariant asserted when declared)",
+	"time.AfterFunc / time.NewTimer: return a non-nil *Timer, no effect on modelled state at the call",
 	"time.Now: symbolic monotone clock; Time.Add/Sub/After/Before/Since/Unix: integer arithmetic on nanoseconds",
 	"cilium/ebpf (*Map).Put/Update/Delete: only read their key/value arguments, no effect on Go state, unconstrained error",
 	"net.IP.Equal(a,b) <=> ip_key(a) == ip_key(b) and net.IP.String() = ip_str(ip_key(a)) with ip_str injective: ip_key is an uninterpreted, extensional function of the address bytes standing for the Equal-equivalence class (4-byte and 16-byte forms of one address may share a key; nothing else is assumed)",
@@ -338,6 +339,15 @@ func init() {
 		fv.assume(st, smt.Ge(n, st.now))
 		st.now = n
 		return []smt.Term{fv.wrap(smt.Sub(n, t), types.Typ[types.Int64])}
+	}
+	// time.AfterFunc / time.NewTimer: never return nil (the callback runs later, on another goroutine:
+	// no effect on the caller's state at the call)
+	for _, name := range []string{"time.AfterFunc", "time.NewTimer"} {
+		libModels[name] = func(fv *funcVerifier, st *State, call *ast.CallExpr, fn *types.Func) []smt.Term {
+			sig := fn.Type().(*types.Signature)
+			fv.evalArgs(st, call, sig)
+			return []smt.Term{fv.freshNonNil(st, "timer", sig.Results().At(0).Type())}
+		}
 	}
 	timeRecv := func(fv *funcVerifier, st *State, call *ast.CallExpr) smt.Term {
 		sel := ast.Unparen(call.Fun).(*ast.SelectorExpr)
